@@ -3122,6 +3122,46 @@ static void big_append_case(uint64_t case_idx) {
     }
 }
 
+/* ------------------------------------------------------------------ printf helpers AWS_BYTE_CURSOR_PRI / AWS_BYTE_BUF_PRI
+ * printing a view with "%.*s" may touch len bytes at most: the precision handed to printf must lie in [0, len]
+ * (a negative precision means "no precision": printf would read on to the next NUL) */
+static int pri_precision(int precision, const char *ptr) {
+    (void)ptr;
+    return precision;
+}
+
+static void check_pri_macros(struct mon_rng *r) {
+    static const size_t LENS[] = {0, 1, 5, 0x7FFFFFFFu, 0x80000000u, 0x80000005u, 0xFFFFFFFFu, 0x100000000ull, 0x100000007ull, 0x280003000ull, 0x80003000u,
+                                  SIZE_MAX / 2, SIZE_MAX / 2 + 1, SIZE_MAX - 2, SIZE_MAX};
+    static uint8_t one[8];
+    s_op = "AWS_BYTE_CURSOR_PRI";
+    for (size_t i = 0; i < sizeof(LENS) / sizeof(LENS[0]); ++i) {
+        struct aws_byte_cursor c = {.len = LENS[i], .ptr = one}; /* forged length: only the macro's arithmetic is evaluated */
+        struct aws_byte_buf b = {.len = LENS[i], .buffer = one, .capacity = LENS[i], .allocator = NULL};
+        int pc = pri_precision(AWS_BYTE_CURSOR_PRI(c));
+        int pb = pri_precision(AWS_BYTE_BUF_PRI(b));
+        if (pc < 0 || (size_t)pc > LENS[i] || pb < 0 || (size_t)pb > LENS[i]) {
+            mon_violation("C01:pri-precision", "view of length 0x%zx: AWS_BYTE_CURSOR_PRI gives precision %d, AWS_BYTE_BUF_PRI %d (printf reads past the view when it is negative or above the length)",
+                          LENS[i], pc, pb);
+            return;
+        }
+    }
+    /* a real view that ends at a fence and is not NUL-terminated */
+    size_t n = (size_t)mon_below(r, 40);
+    uint8_t *mem = mon_fence_new(n ? n : 1);
+    for (size_t i = 0; i < n; ++i) {
+        mem[i] = (uint8_t)('a' + mon_below(r, 26));
+    }
+    struct aws_byte_cursor c = aws_byte_cursor_from_array(mem, n);
+    char out[64];
+    int w = snprintf(out, sizeof(out), "[" PRInSTR "]", AWS_BYTE_CURSOR_PRI(c));
+    if (w != (int)n + 2 || out[0] != '[' || memcmp(out + 1, mem, n) || out[n + 1] != ']') {
+        mon_violation("C01:pri-output", "printing a %zu-byte cursor with PRInSTR gave %d characters: %.60s", n, w, out);
+    }
+    mon_fence_free(mem);
+    mon_count("pri_macro_checks", 1);
+}
+
 static void run_case(uint64_t case_idx) {
     (void)case_idx;
     struct mon_rng *r = &mon_case_rng;
@@ -3224,6 +3264,9 @@ int main(int argc, char **argv) {
             big_append_case(c);
         } else {
             run_case(c);
+        }
+        if (c % 16 == 0) {
+            check_pri_macros(&mon_case_rng);
         }
         mon_case_end(mon_flag_count() >= 3);
     }
